@@ -1,9 +1,9 @@
 #!/bin/bash
 # tools/regress_seeds.sh [pattern]: every stored seeded change against the quick check of the property it breaks
 # (plus the checks recorded as catching it, if the own one is not among them). Prints one line per seed.
-# Nothing is written to /repo or to /verif/evidence.
+# SEEDS_FILE=<file with one seed id per line> selects seeds by list.  Nothing is written to /repo or to /verif/evidence.
 cd /verif
-for d in seeded/${1:-*}/; do
+for d in $(if [ -n "${SEEDS_FILE:-}" ]; then sed "s#^#seeded/#; s#\$#/#" "$SEEDS_FILE"; else ls -d seeded/${1:-*}/; fi); do
   sid=$(basename $d)
   prop=$(/venv/bin/python -c "import json;print(json.load(open('$d/meta.json'))['breaks_property'])")
   caught=$(/venv/bin/python -c "import json;m=json.load(open('$d/meta.json'));c=m.get('caught_by_quick_checks') or [];print(' '.join(c if m['breaks_property'] in c else c[:1]))")
